@@ -108,7 +108,7 @@ impl Check for Merkle {
         if tier == Tier::Quick {
             4000
         } else {
-            100000
+            50000
         }
     }
     fn components(&self) -> serde_json::Value {
